@@ -172,6 +172,7 @@ static void check(TS* s, const Pre& p, const bool* rowgone, const bool* colgone)
       vp_assert(ndual == nr1, 10);                                     // ... i.e. exactly one basic (dual-status) variable per row
       vp_assert(s->Basis::theBaseId.size() == dim1 && s->Basis::matrix.size() == dim1, 11);
       vp_assert(!s->Basis::factorized || s->Basis::matrixIsSetup, 12);
+#ifdef CHECK_BASEIDS   /* thorough tier only: makes the SAT instances much harder (run times 1-20+ min) */
       if(s->Basis::matrixIsSetup)
       {  // "matrixIsSetup: true iff the pointers in matrix are set up correctly": base ids list the basic variables of the new LP
          for(int k = 0; k < VMAX; ++k) if(k < dim1)
@@ -186,6 +187,7 @@ static void check(TS* s, const Pre& p, const bool* rowgone, const bool* colgone)
             vp_assert(s->Basis::matrix[k] == &s->vector(id), 16);
          }
       }
+#endif
    }
 }
 
